@@ -33,6 +33,12 @@ func (ex *Exec) methodNamed(t types.Type, name string) *ssa.Function {
 }
 
 func (ex *Exec) toGoDeep(st *State, v Value, t types.Type) interface{} {
+	ex.jsonDepth++
+	defer func() { ex.jsonDepth-- }()
+	if ex.jsonDepth > 300 {
+		// encoding/json counts pointer/map/slice levels and gives up with an error on a value that contains itself
+		panic(jsonFailed{"json: unsupported value: encountered a cycle"})
+	}
 	switch x := v.(type) {
 	case nil:
 		return nil
@@ -139,11 +145,6 @@ func (ex *Exec) toGoDeep(st *State, v Value, t types.Type) interface{} {
 			if stt, ok := t.Underlying().(*types.Struct); ok {
 				if m := ex.methodNamed(t, "MarshalJSON"); m != nil {
 					panic(jsonUnsupported{fmt.Sprintf("MarshalJSON on value type %v", t)})
-				}
-				ex.jsonDepth++
-				defer func() { ex.jsonDepth-- }()
-				if ex.jsonDepth > 60 {
-					panic(jsonUnsupported{"cyclic or very deep structure"})
 				}
 				// encoding/json: exported fields by name, embedded structs flattened, unexported fields skipped
 				// (rendered as a map: the key order of the text differs from a struct's field order, the content does not)
